@@ -177,6 +177,11 @@ pub fn units(prop: &str, tier: Tier) -> Option<Vec<Unit>> {
                 v.push(class(&format!("k01-{}", kind.name()), &k, pick(3, 4)).kind(kind).alarm(alarm).unit());
             }
             v.push(e1("k01-by-reference-slice", format!("every K01 grammar with <= {} nodes that reads a token through any / select, rewritten to any_ref / select_ref", pick(3, 4)), en::by_ref_all(&k.upto(pick(3, 4)))).kind(KindId::Slice).alarm(alarm).unit());
+            // select! / select_ref! written with overlapping guarded arms
+            v.push(class("k01-select-macro-str", &en::k01_select_macro(), pick(4, 4)).alarm(alarm).unit());
+            v.push(e1("k01-select-ref-macro-slice", "K01select grammars (<= 3 nodes) with every any / select rewritten to any_ref / select_ref (the select_ref! macro)".into(), en::by_ref_all(&en::k01_select_macro().upto(3))).kind(KindId::Slice).alarm(alarm).unit());
+            v.push(e1("k01-select-ref-macro-mapped", "K01select grammars (<= 3 nodes) rewritten to any_ref / select_ref on Input::map".into(), en::by_ref_all(&en::k01_select_macro().upto(3))).kind(KindId::MappedGapped).alarm(alarm).unit());
+            v.push(class("k01-select-macro-stream", &en::k01_select_macro(), 3).kind(KindId::Stream).alarm(alarm).unit());
             // the primitive matchers over every container flavour accepted as a token set / token sequence
             v.push(Unit::Custom { name: "primitive-seq-flavours".into(), run: Box::new(move |cx| eng_inputs::run("primitive-seq-flavours", tier, cx)) });
             // the option rule again, with the option driven as an iterable parser (IterParser for OrNot)
